@@ -69,6 +69,9 @@ pub struct Exec {
     cur_labels: std::collections::BTreeSet<String>,
     /// a directory label reappeared within one lifetime (per-label caches may be stale)
     pub tainted: bool,
+    /// keys whose WAL entry was written to an unlinked log file, or whose log file was deleted by
+    /// a cleanup (observed on the real engine)
+    pub orphaned: Vec<u64>,
 }
 
 fn arm_all(s: &mut Session) {
@@ -85,7 +88,7 @@ impl Exec {
             assert!(r.map(|r| r.ok()).unwrap_or(false), "DEFINE failed");
         }
         arm_all(&mut s);
-        Exec { s, ntypes, stores_this_life: 0, log: vec![], last_real_read: String::new(), last_read_racy: false, seen_labels: Default::default(), cur_labels: Default::default(), tainted: false }
+        Exec { s, ntypes, stores_this_life: 0, log: vec![], last_real_read: String::new(), last_read_racy: false, seen_labels: Default::default(), cur_labels: Default::default(), tainted: false, orphaned: vec![] }
     }
 
     fn hits(&mut self, p: &str) -> u64 {
@@ -202,9 +205,47 @@ impl Exec {
         self.cur_labels = now;
     }
 
+    /// keys per WAL file currently in the directory
+    fn wal_snapshot(&self) -> std::collections::BTreeMap<String, Vec<u64>> {
+        let mut m = std::collections::BTreeMap::new();
+        if let Ok(rd) = std::fs::read_dir(self.s.shard_wal_dir(0)) {
+            for e in rd.flatten() {
+                let name = e.file_name().to_string_lossy().to_string();
+                if !(name.starts_with("wal-") && name.ends_with(".log")) {
+                    continue;
+                }
+                let mut keys = vec![];
+                if let Ok(text) = std::fs::read_to_string(e.path()) {
+                    for line in text.lines() {
+                        if let Ok(v) = serde_json::from_str::<serde_json::Value>(line) {
+                            if let Some(k) = v.get("payload").and_then(|p| p.get("k")).and_then(|k| k.as_u64()) {
+                                keys.push(k);
+                            }
+                        }
+                    }
+                }
+                m.insert(name, keys);
+            }
+        }
+        m
+    }
+
     /// Executes one op; reads and listings return the canonical observation line.
     pub fn exec(&mut self, op: &Op) -> Option<String> {
+        // ops during which the flush worker may run its WAL cleanup: remember which WAL entries
+        // disappear (class predicate of finding C01-wal-segment-id-skew: an acknowledged event is
+        // lost by a crash only after its WAL entry was removed or written to an unlinked log)
+        let may_clean = matches!(op, Op::Adv | Op::Run | Op::F | Op::D | Op::C);
+        let before = if may_clean { self.wal_snapshot() } else { Default::default() };
         let out = self.exec_inner(op);
+        if may_clean && !matches!(op, Op::D) {
+            let after = self.wal_snapshot();
+            for (name, keys) in before {
+                if !after.contains_key(&name) {
+                    self.orphaned.extend(keys);
+                }
+            }
+        }
         self.track_labels();
         out
     }
@@ -212,9 +253,17 @@ impl Exec {
     fn exec_inner(&mut self, op: &Op) -> Option<String> {
         match op {
             Op::S { k, ctx, ty } => {
+                let before = self.s.wal_lines(0);
                 let r = self.s.cmd(&format!("STORE ev{ty} FOR c{ctx} PAYLOAD {{\"k\":{k}}}"));
                 assert!(r.map(|r| r.ok()).unwrap_or(false), "STORE failed");
                 self.stores_this_life += 1;
+                // The flush worker is parked or idle between ops, so nothing deletes WAL files
+                // here: if the directory did not gain a line, the entry went to a log file that
+                // has been unlinked while open (finding C01-wal-segment-id-skew).
+                self.wait_wal_drained();
+                if self.s.wal_lines(0) <= before {
+                    self.orphaned.push(*k);
+                }
                 None
             }
             Op::F => {
